@@ -10,10 +10,11 @@ RULE = ("same case generator as C01; for the first conforming payloads of each o
         "applied at every position, one at a time: null-out / delete at non-null positions, null element in a list of non-null, "
         "list -> first element, list -> {}, scalar kind swaps (Int<-\"s\",1.5,true; Float<-\"s\",true; String<-1,true; "
         "Boolean<-1,\"true\"; ID<-1.5,true,[],{}; enum<-1,true), object<-5 / [], __typename deleted / non-string / unknown at "
-        "abstract positions; fragments_other_variant off and on. Non-trivial = case with at least one corruption at depth >= 2 "
+        "abstract positions; fragments_other_variant off and on; every fifth case is delivered through the derive macro (options "
+        "as attribute items in a per-case order) instead of the library call. Non-trivial = case with at least one corruption at depth >= 2 "
         "or at an abstract position; distinct by (schema, document, options)")
 
-FLOOR = {"corruptions": 2000, "unknown-typename": 10, "null@": 100, "kind:": 100}
+FLOOR = {"corruptions": 2000, "unknown-typename": 10, "null@": 100, "kind:": 100, "derive-delivery": 10}
 
 
 def gen_cases(run, n, prefix="c"):
@@ -28,7 +29,13 @@ def gen_cases(run, n, prefix="c"):
         opts = {"other_variant": other, "skip_none": rng.random() < 0.2}
         if rng.random() < 0.3:
             opts["normalization"] = "rust"
+        if i % 5 == 4:
+            opts["skip_none"] = True
         c = C.make_case("%s%d" % (prefix, i), schema, doc, rng, options=opts, features=feats)
+        if i % 5 == 4:
+            c["attr_focus"] = "fragments_other_variant"
+            c["delivery"] = "derive"      # the options arrive through the derive attribute (items in a per-case order)
+            run.count("derive-delivery")
         vecs, stats = C.resp_vectors(c, rng, n_payloads=4, n_corrupt_bases=run.size(2, 4), other_variant=other)
         c["vectors"] = vecs
         c["payload_stats"] = stats
